@@ -5,11 +5,12 @@ props = [json.loads(l) for l in open(os.path.join(V, "properties.jsonl"))]
 NA = {
     "C01": "property of fresh-process interpreter state and import order: there is no function input to make symbolic; deciding it is enumeration of concrete process runs, which is a different technique (DESIGN.md section 5)",
 }
+READY = set(open(os.path.join(V, "tools", "ready.txt")).read().split())
 checks, na = [], []
 for p in props:
     pid = p["id"]
     f = os.path.join(V, "harness", pid + ".py")
-    if pid in NA or not os.path.exists(f):
+    if pid in NA or not os.path.exists(f) or pid not in READY:
         na.append(dict(property_id=pid, reason=NA.get(pid, "check not built yet in this round (planned: DESIGN.md section 4 %s)" % pid)))
         continue
     meta = {}
